@@ -577,3 +577,20 @@ func TwinColumns(id int) *Model {
 	}
 	return &Model{ID: id, Tables: []Table{mk("Account"), mk("Device"), mk("Gadget")}}
 }
+
+// NamingWitness is a model file whose tables and fields are spelled like the identifiers the CRUD templates use
+// themselves (rows, item, tx, err, out, ids, Set): generated code must keep its own names apart from the user's.
+func NamingWitness(id int) *Model {
+	key := func(name, target string) Field {
+		return Field{Name: name, Exported: true, TE: basic("int64"), Guard: noGuard, Foreign: target}
+	}
+	return &Model{ID: id, Tables: []Table{
+		{Goname: "Item", Fields: []Field{plain("Id", basic("int64")), plain("Name", basic("string"))}},
+		{Goname: "Rows", Fields: []Field{plain("Id", basic("int64")), plain("N", basic("int"))}},
+		{Goname: "Set", Fields: []Field{plain("Id", basic("int64")), plain("Ids", basic("string"))}},
+		{Goname: "Seat", Fields: []Field{plain("Id", basic("int64")), key("Row", "Rows"), key("Item", "Item"), key("Set", "Set"),
+			plain("Tx", basic("int")), plain("Err", basic("string")), plain("Out", basic("int")), plain("Args", basic("string"))},
+			Comments: []string{"gomacro:SQL ADD UNIQUE(Tx, Err)", "gomacro:SQL _SELECT KEY(Out)"}},
+		{Goname: "SeatLink", Fields: []Field{key("Row", "Rows"), key("Item", "Item"), key("Seat", "Seat")}},
+	}}
+}
